@@ -110,7 +110,7 @@ def shrink(plan, target, fails, max_cand=300, max_s=90):
                 chunk //= 2
         # 3. environment perturbations, one at a time
         for side in ('hist', 'orac'):
-            for key in ('hash', 'clock', 'junk', 'poison', 'environ', 'environ_extra', 'gc', 'host', 'pid', 'cpus',
+            for key in ('hash', 'clock', 'junk', 'poison', 'environ', 'environ_extra', 'gc', 'stdin', 'capture', 'host', 'pid', 'cpus',
                         'mem_pages', 'rng_seed'):
                 if cur[side].get(key) != PLAIN.get(key):
                     c = copy.deepcopy(cur)
